@@ -304,12 +304,16 @@ def c13_case(draw):
             del e["shape"]
         elif r == 5:
             # misuse
-            mk = draw(st.sampled_from(["sym", "q", "composite"]))
+            mk = draw(st.sampled_from(["sym", "q", "composite", "hole"]))
             if mk == "sym":
                 e["tokens"] = [gc.tok_json(dl.Token("", "sym", ("bin", "+", ("name", "zz"), ("int", 1))))] + e["tokens"][: max(0, len(e["shape"]) - 1)]
                 e["shape"] = e["shape"][: len(e["tokens"])] if len(e["shape"]) >= len(e["tokens"]) else e["shape"] + [2] * (len(e["tokens"]) - len(e["shape"]))
             elif mk == "q":
                 e["tokens"] = [gc.tok_json(dl.Token("?", "name", "a"))]
+                e["shape"] = [3]
+            elif mk == "hole":
+                # an f-string axis that names something which is not an argument of the function: annotation misuse as well
+                e["tokens"] = [gc.tok_json(dl.Token("", "sym", draw(st.sampled_from([("hole", "vf_no_such_argument"), ("bin", "+", ("hole", "vf_no_such_argument"), ("int", 1))]))))]
                 e["shape"] = [3]
             else:
                 e["kind"] = "pytree"
